@@ -18,6 +18,9 @@ func NewYaml(body []byte) (*Yaml, error) {
 	if err != nil {
 		return nil, errors.New("unmarshal []byte to yaml failed: " + err.Error())
 	}
+	if len(val.Content) == 0 {
+		return nil, errors.New("empty YAML document")
+	}
 	root := val.Content[0]
 	return &Yaml{root}, nil
 }
@@ -78,11 +81,14 @@ func (y *Yaml) Array() ([]*Yaml, error) {
 }
 
 func (y *Yaml) IsArray() bool {
-	return y.data.Kind == yaml.SequenceNode
+	return y.data != nil && y.data.Kind == yaml.SequenceNode
 }
 
 // return the size of array
 func (y *Yaml) GetArraySize() (int, error) {
+	if !y.IsFound() {
+		return -1, errors.New("not node found")
+	}
 	if y.data.Kind == yaml.SequenceNode {
 		return len(y.data.Content), nil
 	}
@@ -106,6 +112,9 @@ func (y *Yaml) GetIndex(index int) *Yaml {
 }
 
 func (y *Yaml) Pos() (int, int) {
+	if y.data == nil {
+		return 0, 0
+	}
 	return y.data.Line, y.data.Column
 }
 
@@ -186,7 +195,7 @@ func (y *Yaml) Map() (map[string]*Yaml, error) {
 
 // Check if it is a map
 func (y *Yaml) IsMap() bool {
-	return y.data.Kind == yaml.MappingNode
+	return y.data != nil && y.data.Kind == yaml.MappingNode
 }
 
 // Get all the keys of the map
